@@ -108,6 +108,8 @@ pub struct ExecReport {
     pub engine: String,
     #[serde(default)]
     pub digest_mismatch: bool,
+    #[serde(default)]
+    pub free_attempts_hit: bool,
     /// FNV-64 of every distinct program text / file tree this execution compiled
     #[serde(default)]
     pub prog_keys: Vec<u64>,
@@ -480,6 +482,23 @@ pub fn work(gen: &Gen, cfg: &WorkerCfg) {
             }
             if rep.viol.iter().any(|v| v.element == "no-return") {
                 noreturns += 1;
+            }
+            if degraded && rep.viol.is_empty() && rep.herr.is_none() {
+                // Fallback (not simulation): a few free-running attempts with real threads.
+                // An output that differs from the reference is real however it was scheduled.
+                let mut free = plan.clone();
+                free.shuttle = true;
+                free.engine = "free".into();
+                free.sched = Default::default();
+                for _ in 0..3 {
+                    let r2 = run_one(&free, &mut refs, false, false);
+                    if !r2.viol.is_empty() {
+                        rep.viol = r2.viol;
+                        rep.plan = Some(free.clone());
+                        rep.free_attempts_hit = true;
+                        break;
+                    }
+                }
             }
             rep.degraded = degraded;
             rep.engine = if plan.engine.is_empty() { "shuttle".into() } else { plan.engine.clone() };
